@@ -1,4 +1,5 @@
 import RomeaProofs.Lemmas.C04Optimal
+import RomeaProofs.Lemmas.C04Objects
 import Mathlib.Tactic.NormNum
 import Mathlib.Tactic.FinCases
 
@@ -701,5 +702,166 @@ example : Matrix.of (findPre 3 3 (Nat.le_refl 3) (Nat.le_succ 3) e3Svd e3Src e3T
   isotropic_scale_invariant_rigid e3Svd e3Src e3Tgt e3Corr 2 (by norm_num) e3Q e3τ e3Qorth e3Qdet e3Ne e3In e3Rigid e3Rank
     e3Oracle e3Oracle2
 end Examples3
+
+
+/-! ## 7. Long-lived objects: a `PreconditionedPointSet` is a function of its LAST `compute` only
+
+The library refills two long-lived `PreconditionedPointSet` members for every scan
+(`RansacRigidTransformationModel::loadPointSets`) and hands them to `find`.  The model of the object
+(`RomeaModel/RegistrationObjects.lean`) follows the code: `allocate_` (resize: truncate or append filler), the
+overwrite loop, the matrix.  The theorems below hold for EVERY scalar type (no arithmetic law is used), hence at
+`Float`/`Float32` as executed by the driver and at `ℝ`, for every previous state, every filler value and every list of
+earlier computes (growing, shrinking, equal sizes; either `compute` overload). -/
+section Reuse
+variable {α : Type} [Add α] [Mul α] [NatCast α] {p : Nat}
+
+omit [Add α] in
+/-- `compute(points, scale)` on an object in ANY state leaves exactly what the constructor
+    `PreconditionedPointSet(points, scale)` builds: the scaled input (as many points as the input has) and the scale
+    matrix.  Nothing of the previous contents, size or matrix, and nothing of the filler, survives. -/
+theorem compute_forgets (fill : Tab p α) (st : PPS d p α) (input : Array (Tab p α)) (s : α) :
+    st.compute fill input s = ⟨precondition p s input, scaleMat d s⟩ := by
+  unfold PPS.compute
+  rw [overwrite_allocate]
+  rfl
+
+/-- the same for `compute(points, scale, translation)` (and so for the `PointSetPreconditioner` overload) -/
+theorem computeT_forgets (fill : Tab p α) (st : PPS d p α) (input : Array (Tab p α)) (s : α) (tr : Tab d α) :
+    st.computeT fill input s tr = ⟨input.map (affinePoint d p s tr), affineMat d s tr⟩ := by
+  unfold PPS.computeT
+  rw [overwrite_allocate]
+
+/-- one compute on two objects in different states (and with different fillers) gives the same object -/
+theorem apply_forgets (fill fill' : Tab p α) (st st' : PPS d p α) (c : ComputeOp d p α) :
+    st.apply fill c = st'.apply fill' c := by
+  cases c with
+  | scale input s => simp only [PPS.apply, compute_forgets]
+  | scaleTrans input s tr => simp only [PPS.apply, computeT_forgets]
+
+/-- **History theorem.**  For every initial state, every list `ops` of earlier computes and every last compute `c`:
+    the object equals a freshly constructed object on which only `c` was run. -/
+theorem history_last_compute_only (fill : Tab p α) (st : PPS d p α) (ops : List (ComputeOp d p α)) (c : ComputeOp d p α) :
+    st.run fill (ops ++ [c]) = (PPS.init d p).apply fill c := by
+  unfold PPS.run
+  rw [List.foldl_append]
+  exact apply_forgets fill fill _ _ c
+
+/-- in particular the number of points `get()` returns is the size of the last input -/
+theorem history_size (fill : Tab p α) (st : PPS d p α) (ops : List (ComputeOp d p α)) (input : Array (Tab p α)) (s : α) :
+    (st.run fill (ops ++ [.scale input s])).points.size = input.size := by
+  rw [history_last_compute_only]
+  simp [PPS.apply, compute_forgets, precondition]
+
+omit [Add α] in
+/-- entry `(0,0)` of the matrix after `compute(points, scale)`, for the instantiated dimensions (`d ≥ 1`) -/
+theorem m00_after_compute (hd : 0 < d) (pts : Array (Tab p α)) (s : α) :
+    (⟨pts, scaleMat d s⟩ : PPS d p α).m00 = precondM00 s := by
+  simp [PPS.m00, scaleMat, identityTab, precondM00, hd]
+
+variable [Sub α] [Div α] [Neg α] [LT α] [DecidableLT α]
+
+/-- **`find` on reused objects = `find` on fresh ones.**  Whatever was computed into the two objects before, after
+    `source.compute(src, sS)` and `target.compute(tgt, sT)` the preconditioned overload with a correspondence list
+    returns what `Registration.findPre` (two sets built by the constructor just before the call) returns; all theorems
+    of sections 1 and 5 about `findPre` therefore apply to every history. -/
+theorem find_after_any_history (hd : 0 < d) (hdp : d ≤ p) (hp : p ≤ d + 1) (svd : Mat d d α → SVD d α)
+    (fillS fillT : Tab p α) (stS stT : PPS d p α) (opsS opsT : List (ComputeOp d p α))
+    (src tgt : Array (Tab p α)) (sS sT : α) (corr : List (Nat × Nat)) :
+    findObj d p hdp hp svd (stS.run fillS (opsS ++ [.scale src sS])) (stT.run fillT (opsT ++ [.scale tgt sT])) corr =
+      findPre d p hdp hp svd src tgt corr sS sT := by
+  rw [history_last_compute_only, history_last_compute_only]
+  simp only [PPS.apply, compute_forgets]
+  unfold findObj findPre
+  rw [m00_after_compute hd]
+  rfl
+
+/-- the same for the overload WITHOUT a correspondence list, which reads `get().size()` of both objects -/
+theorem findAll_after_any_history (hd : 0 < d) (hdp : d ≤ p) (hp : p ≤ d + 1) (svd : Mat d d α → SVD d α)
+    (fillS fillT : Tab p α) (stS stT : PPS d p α) (opsS opsT : List (ComputeOp d p α))
+    (src tgt : Array (Tab p α)) (sS sT : α) :
+    findObjAll d p hdp hp svd (stS.run fillS (opsS ++ [.scale src sS])) (stT.run fillT (opsT ++ [.scale tgt sT])) =
+      findPreAll d p hdp hp svd src tgt sS sT := by
+  rw [history_last_compute_only, history_last_compute_only]
+  simp only [PPS.apply, compute_forgets]
+  unfold findObjAll findPreAll
+  rw [m00_after_compute hd]
+  rfl
+
+end Reuse
+
+/-- **Isotropic preconditioning through reused objects (Cartesian points).**  Two `PreconditionedPointSet` objects
+    with arbitrary histories, refilled with the current sets and one scale `s > 0`: the preconditioned overload
+    returns the matrix of the plain overload on the current sets (hypotheses of `isotropic_scale_invariant`). -/
+theorem reused_objects_isotropic_scale_invariant (hd : 0 < d) (svd : Mat d d ℝ → SVD d ℝ)
+    (fillS fillT : Tab d ℝ) (stS stT : PPS d d ℝ) (opsS opsT : List (ComputeOp d d ℝ))
+    (src tgt : Array (Tab d ℝ)) (corr : List (Nat × Nat))
+    (s : ℝ) (hs : 0 < s) (hne : corr ≠ []) (hin : InRange src tgt corr)
+    (hdet : 0 < (covL (pairsOf (Nat.le_refl d) src tgt corr)).det)
+    (hsvd : OracleOK (Nat.le_refl d) svd src tgt corr)
+    (hsvd' : OracleOK (Nat.le_refl d) svd (precondition d s src) (precondition d s tgt) corr) :
+    Matrix.of (findObj d d (Nat.le_refl d) (Nat.le_succ d) svd (stS.run fillS (opsS ++ [.scale src s]))
+      (stT.run fillT (opsT ++ [.scale tgt s])) corr).toFn = estC svd src tgt corr := by
+  rw [find_after_any_history hd]
+  exact isotropic_scale_invariant svd src tgt corr s hs hne hin hdet hsvd hsvd'
+
+/-- the same on rigidly related sets, coplanar ones included, and without a correspondence list (the overload that
+    depends on how many points the objects hold) -/
+theorem reused_objects_no_corr_rigid (hd : 0 < d) (svd : Mat d d ℝ → SVD d ℝ)
+    (fillS fillT : Tab d ℝ) (stS stT : PPS d d ℝ) (opsS opsT : List (ComputeOp d d ℝ))
+    (src tgt : Array (Tab d ℝ)) (hsize : src.size = tgt.size)
+    (s : ℝ) (hs : 0 < s) (Q : Matrix (Fin d) (Fin d) ℝ) (τ : Fin d → ℝ) (hQ : Qᵀ * Q = 1) (hQd : Q.det = 1)
+    (hne : (List.range src.size).map (fun n => (n, n)) ≠ [])
+    (hin : InRange src tgt ((List.range src.size).map (fun n => (n, n))))
+    (hrigid : RigidOn (Nat.le_refl d) Q τ src tgt ((List.range src.size).map (fun n => (n, n))))
+    (hrank : d - 1 ≤ (scatterL (srcPts (Nat.le_refl d) src ((List.range src.size).map (fun n => (n, n))))).rank)
+    (hsvd : OracleOK (Nat.le_refl d) svd src tgt ((List.range src.size).map (fun n => (n, n))))
+    (hsvd' : OracleOK (Nat.le_refl d) svd (precondition d s src) (precondition d s tgt)
+      ((List.range src.size).map (fun n => (n, n)))) :
+    Matrix.of (findObjAll d d (Nat.le_refl d) (Nat.le_succ d) svd (stS.run fillS (opsS ++ [.scale src s]))
+      (stT.run fillT (opsT ++ [.scale tgt s]))).toFn = homMat Q τ := by
+  rw [findAll_after_any_history hd, no_corr_overload_preconditioned_eq _ _ _ _ _ _ _ _ hsize,
+    isotropic_scale_invariant_rigid svd src tgt _ s hs Q τ hQ hQd hne hin hrigid hrank hsvd hsvd']
+  exact exact_recovery_rank_deficient svd src tgt _ Q τ hQ hQd hne hin hrigid hrank hsvd
+
+
+/-! ### non-vacuity of section 7: objects that first held SIX points of another scan (scale 3), then a translated set,
+    and are then refilled with the four points of the examples above -/
+section ExamplesReuse
+private noncomputable def exOld : Array (Tab 2 ℝ) :=
+  #[Tab.ofFn ![5,5], Tab.ofFn ![6,5], Tab.ofFn ![5,7], Tab.ofFn ![9,9], Tab.ofFn ![1,0], Tab.ofFn ![0,3]]
+private noncomputable def exOps : List (ComputeOp 2 2 ℝ) := [.scale exOld 3, .scaleTrans exOld 2 (Tab.ofFn ![1,1])]
+private noncomputable def exFill : Tab 2 ℝ := Tab.ofFn ![7,7]
+
+/-- `history_size`: six points before, four after -/
+example : ((PPS.init 2 2).run exFill ([ComputeOp.scale exOld 3])).points.size = 6 := by
+  have := history_size exFill (PPS.init 2 2) [] exOld (3 : ℝ)
+  simpa [exOld] using this
+example : ((PPS.init 2 2).run exFill (exOps ++ [.scale exSrc 2])).points.size = 4 := by
+  rw [history_size]; simp [exSrc]
+
+/-- `reused_objects_isotropic_scale_invariant` (through `find_after_any_history`, `history_last_compute_only`) -/
+example : Matrix.of (findObj 2 2 (Nat.le_refl 2) (Nat.le_succ 2) exSvd ((PPS.init 2 2).run exFill (exOps ++ [.scale exSrc 2]))
+    ((PPS.init 2 2).run exFill (exOps ++ [.scale exTgt 2])) exCorr).toFn = estC exSvd exSrc exTgt exCorr :=
+  reused_objects_isotropic_scale_invariant (by norm_num) exSvd exFill exFill _ _ exOps exOps exSrc exTgt exCorr 2 (by norm_num)
+    exNe exIn (by rw [exCov]; simp [Matrix.det_fin_two]) exOracle exOracle2
+
+private noncomputable def e3Old : Array (Tab 3 ℝ) :=
+  #[Tab.ofFn ![5,5,1], Tab.ofFn ![6,5,2], Tab.ofFn ![5,7,3], Tab.ofFn ![9,9,4], Tab.ofFn ![1,0,5]]
+private theorem e3CorrEq : (List.range e3Src.size).map (fun n => (n, n)) = e3Corr := by
+  simp [e3Src, e3Corr, List.range_succ]
+
+/-- `reused_objects_no_corr_rigid` on the coplanar 3D problem: the objects held five other points before -/
+example : Matrix.of (findObjAll 3 3 (Nat.le_refl 3) (Nat.le_succ 3) e3Svd
+    ((PPS.init 3 3).run (Tab.ofFn ![0,0,0]) ([ComputeOp.scale e3Old 7] ++ [.scale e3Src 2]))
+    ((PPS.init 3 3).run (Tab.ofFn ![0,0,0]) ([ComputeOp.scale e3Old 7] ++ [.scale e3Tgt 2]))).toFn = homMat e3Q e3τ := by
+  refine reused_objects_no_corr_rigid (by norm_num) e3Svd _ _ _ _ _ _ e3Src e3Tgt (by simp [e3Src, e3Tgt]) 2 (by norm_num)
+    e3Q e3τ e3Qorth e3Qdet ?_ ?_ ?_ ?_ ?_ ?_ <;> rw [e3CorrEq]
+  · exact e3Ne
+  · exact e3In
+  · exact e3Rigid
+  · exact e3Rank
+  · exact e3Oracle
+  · exact e3Oracle2
+end ExamplesReuse
 
 end Romea.C04
